@@ -2,7 +2,7 @@
    ds / db are the descriptors of a single / batch create function (C24/Model.v); [fold_col] is the sequence of
    single calls, [batch_col] the batch call, both observed on one column; [new_vals] = the rows they added. *)
 From Coq Require Import ZArith QArith List Bool String.
-From PPV Require Import Base.QN C24.Model C24.Proofs.
+From PPV Require Import Base.QN C24.Model C24.Proofs C24.ModelX C24.ProofsX.
 Import ListNotations.
 Open Scope string_scope.
 
@@ -131,3 +131,145 @@ Proof. exact cost_old_partial. Qed.
 Print Assumptions C24_cost_old_partial.
 Example C24_cost_partial_nonvacuous : G24_cost [mkcost 3 "gen" "p"] [mkcost 1 "load" "p"] [0%Z; 1%Z; 2%Z] "gen" = true.
 Proof. exact cost_partial_nonvacuous. Qed.
+
+(* ======================================================================================================================
+   Extended descriptors (C24/ModelX.v): pairs with conditional column writes / argument defaults computed from other
+   arguments: sgen(s), shunt(s), impedance(s), line(s)_from_parameters, transformer(s)_from_parameters,
+   transformer(s)3w_from_parameters, bus(es)_dc, switch(es); costs with et / power_type per element.
+   [xfold_col] = the sequence of single calls, each following the column specification its own arguments select;
+   [xbatch_col] = the batch call following the specification the whole argument vectors select. *)
+
+(* --- for all inputs, under the boolean guard GX (every single call of the sequence takes the same branch, and that
+   branch is compatible with the branch the batch call takes for these vectors): equal rows, column by column *)
+Theorem C24_xbatch_rows_eq_fold_partial : forall std xs xb c l, GX std xs xb c l = true ->
+  forall oc, new_vals oc (xbatch_col xb c std l oc) = new_vals oc (xfold_col xs c std l oc).
+Proof. exact xbatch_eq_fold. Qed.
+Print Assumptions C24_xbatch_rows_eq_fold_partial.
+
+(* --- rejections: same node / index / positivity checks and the extra raise conditions agree on these vectors *)
+Theorem C24_xbatch_rejects_iff_fold_partial : forall xs xb l, xchecks_compat xs xb l = true ->
+  forall t std idxs, (match idxs with Some li => List.length li = List.length l | None => True end) ->
+  xbatch_ok xb t std idxs l = xfold_ok xs t std idxs l.
+Proof. exact xbatch_rejects_iff_fold. Qed.
+Print Assumptions C24_xbatch_rejects_iff_fold_partial.
+
+(* --- the guards hold for EVERY argument vector list on the listed columns (= all columns the single function writes
+   except the named exceptions) *)
+Theorem C24_sgen_cols_full : forall std c, In c elec_sgen -> forall l, GX std x_sgen_s x_sgen_b c l = true.
+Proof. exact compat_sgen. Qed.
+Print Assumptions C24_sgen_cols_full.
+Theorem C24_shunt_cols_full : forall std c, In c elec_shunt -> forall l, GX std x_shunt_s x_shunt_b c l = true.
+Proof. exact compat_shunt. Qed.
+Theorem C24_impedance_cols_full : forall std c, In c elec_imp -> forall l, GX std x_imp_s x_imp_b c l = true.
+Proof. exact compat_imp. Qed.
+Theorem C24_linepar_cols_full : forall std c, In c elec_linepar -> forall l, GX std x_linepar_s x_linepar_b c l = true.
+Proof. exact compat_linepar. Qed.
+(* every column of create_transformer_from_parameters (after "fix: create_transformers_from_parameters defaults tap2_pos
+   to tap2_neutral") *)
+Theorem C24_trafopar_cols_full : forall std c, In c elec_trafopar -> forall l, GX std x_trafopar_s x_trafopar_b c l = true.
+Proof. exact compat_trafopar. Qed.
+Print Assumptions C24_trafopar_cols_full.
+(* every column of create_transformer3w_from_parameters *)
+Theorem C24_trafo3wpar_cols_full : forall std c, In c elec_t3par -> forall l, GX std x_t3par_s x_t3par_b c l = true.
+Proof. exact compat_t3par. Qed.
+Print Assumptions C24_trafo3wpar_cols_full.
+Theorem C24_switch_cols_full : forall std c, In c elec_switch -> forall l, GX std x_switch_s x_switch_b c l = true.
+Proof. exact compat_switch. Qed.
+Theorem C24_busdc_cols_full : forall std c, In c elec_busdc -> forall l, GX std x_busdc_s x_busdc_b c l = true.
+Proof. exact compat_busdc. Qed.
+Theorem C24_xchecks_full : forall l,
+  xchecks_compat x_shunt_s x_shunt_b l = true /\ xchecks_compat x_linepar_s x_linepar_b l = true /\
+  xchecks_compat x_busdc_s x_busdc_b l = true /\ xchecks_compat x_switch_s x_switch_b l = true /\
+  xchecks_compat x_trafopar_s x_trafopar_b l = true /\ xchecks_compat x_t3par_s x_t3par_b l = true.
+Proof. exact xchecks_plain. Qed.
+Print Assumptions C24_xchecks_full.
+
+(* --- sgens (known finding C24-sgens-generator-type): with the generator type passed and equal for every row the
+   remaining four columns and the rejections agree too; refuted otherwise *)
+Theorem C24_sgen_partial : forall std g l, sgen_hom g l = true ->
+  (forall c, In c [GT; "k"; "lrc_pu"; "max_ik_ka"] -> GX std x_sgen_s x_sgen_b c l = true) /\
+  (l <> [] -> xchecks_compat x_sgen_s x_sgen_b l = true).
+Proof. intros std g l H. split; [apply (sgen_hom_compat std g l H) | apply (xchecks_sgen g l H)]. Qed.
+Print Assumptions C24_sgen_partial.
+Example C24_sgen_partial_nonvacuous : sgen_hom "async" [sg (VS "async") (q 3 2); sg (VS "async") VNaN] = true.
+Proof. exact sgen_hom_nonvacuous. Qed.
+Theorem C24_sgen_refuted :
+  (exists l c oc, new_vals oc (xbatch_col x_sgen_b c [] l oc) <> new_vals oc (xfold_col x_sgen_s c [] l oc)) /\
+  (exists l oc, new_vals oc (xbatch_col x_sgen_b "k" [] l oc) <> new_vals oc (xfold_col x_sgen_s "k" [] l oc)) /\
+  (exists t l, xbatch_ok x_sgen_b_old t [] None l <> xfold_ok x_sgen_s t [] None l).
+Proof. split; [exact sgen_refuted | split; [exact sgen_mixed_refuted | exact sgen_old_rej_refuted]]. Qed.
+Print Assumptions C24_sgen_refuted.
+
+(* --- lines_from_parameters (known finding C24-lines-from-parameters-zero-seq) *)
+Theorem C24_linepar_refuted : exists l c oc,
+  new_vals oc (xbatch_col x_linepar_b c [] l oc) <> new_vals oc (xfold_col x_linepar_s c [] l oc).
+Proof. exact linepar_refuted. Qed.
+Example C24_linepar_partial_nonvacuous :
+  forallb (fun c => GX [] x_linepar_s x_linepar_b c [lp_full; lp_full]) ["r0_ohm_per_km"; "x0_ohm_per_km"; "c0_nf_per_km"; "g0_us_per_km"] = true.
+Proof. exact linepar_nonvacuous. Qed.
+
+(* --- regression witnesses for the repaired *_from_parameters batch functions: before the repairs tap2_pos did not fall
+   back to tap2_neutral, and a string-valued optional argument passed as a list (vector_group, tap2_side, tap2_changer_type;
+   tap_changer_type of the 3W function) raised TypeError in _not_nan *)
+Theorem C24_trafopar_old_refuted :
+  (exists l oc, new_vals oc (xbatch_col x_trafopar_b_old "tap2_pos" [] l oc) <> new_vals oc (xfold_col x_trafopar_s "tap2_pos" [] l oc)) /\
+  (exists t l, xbatch_ok x_trafopar_b_old t [] None l <> xfold_ok x_trafopar_s t [] None l) /\
+  (exists t l, xbatch_ok x_t3par_b_old t [] None l <> xfold_ok x_t3par_s t [] None l).
+Proof. split; [exact trafopar_old_refuted | split; [exact trafopar_old_rej_refuted | exact t3par_old_rej_refuted]]. Qed.
+Print Assumptions C24_trafopar_old_refuted.
+
+(* --- impedances: after "fix: create_impedances accepts the zero-sequence arguments" the zero-sequence columns are written
+   by the batch call as by the single calls (example); before it the batch call raised InvalidIndexError (old, refuted).
+   Still: "is None" is tested on the whole argument, so a None inside a vector is not replaced by the ft value *)
+Theorem C24_impedance_old_refuted : exists t l, xbatch_ok x_imp_b_old t [] None l <> xfold_ok x_imp_s t [] None l.
+Proof. exact imp_old_rej_refuted. Qed.
+Print Assumptions C24_impedance_old_refuted.
+Theorem C24_impedance_refuted : exists l oc,
+  new_vals oc (xbatch_col x_imp_b "rtf_pu" [] l oc) <> new_vals oc (xfold_col x_imp_s "rtf_pu" [] l oc).
+Proof. exact imp_col_refuted. Qed.
+Print Assumptions C24_impedance_refuted.
+Example C24_impedance_partial_nonvacuous :
+  forallb (fun c => GX [] x_imp_s x_imp_b c [imp_a [("rtf_pu", q 3 8)]; imp_a [("rtf_pu", q 1 2)]]) ["rtf_pu"; "xtf_pu"; "gt_pu"; "bt_pu"] = true
+  /\ xchecks_compat x_imp_s x_imp_b [imp_a []; imp_a []] = true.
+Proof. exact imp_nonvacuous. Qed.
+Example C24_impedance_zero_seq_nonvacuous :
+  forallb (fun c => GX [] x_imp_s x_imp_b c [imp_z; imp_z])
+          ["rft0_pu"; "xft0_pu"; "rtf0_pu"; "xtf0_pu"; "gf0_pu"; "bf0_pu"; "gt0_pu"; "bt0_pu"] = true
+  /\ xchecks_compat x_imp_s x_imp_b [imp_z; imp_z] = true
+  /\ new_vals {| oc_ex := false; oc_vals := [] |} (xbatch_col x_imp_b "rtf0_pu" [] [imp_z; imp_z] {| oc_ex := false; oc_vals := [] |})
+     = [q 1 2; q 1 2].
+Proof. exact imp_zero_seq_nonvacuous. Qed.
+
+(* --- shunts: vn_kv defaults to the bus voltage per element / for the whole argument *)
+Theorem C24_shunt_refuted : exists l oc,
+  new_vals oc (xbatch_col x_shunt_b "vn_kv" [] l oc) <> new_vals oc (xfold_col x_shunt_s "vn_kv" [] l oc).
+Proof. exact shunt_refuted. Qed.
+Example C24_shunt_partial_nonvacuous : GX [] x_shunt_s x_shunt_b "vn_kv" [sh []; sh []] = true /\
+                         GX [] x_shunt_s x_shunt_b "vn_kv" [sh [("vn_kv", q 10 1)]; sh [("vn_kv", q 20 1)]] = true.
+Proof. exact shunt_nonvacuous. Qed.
+
+(* --- buses_dc: the vm limits, as for buses (finding C24-vm-limit-default-missing-in-batch) *)
+Theorem C24_busdc_refuted : exists l c oc,
+  new_vals oc (xbatch_col x_busdc_b c [] l oc) <> new_vals oc (xfold_col x_busdc_s c [] l oc).
+Proof. exact busdc_refuted. Qed.
+
+(* --- switches: the vector-wise checks of create_switches (buses exist, element types implemented, elements exist per
+   type, each bus is one of the buses of its own element) accept exactly the vectors every row of which create_switch
+   accepts; with the index checks: create_switches raises iff some create_switch call of the sequence raises, same indices *)
+Theorem C24_switch_checks_full : forall env l, sw_batch_ok env l = forallb (sw_single_ok env) l.
+Proof. exact sw_batch_ok_forall. Qed.
+Print Assumptions C24_switch_checks_full.
+Theorem C24_switch_rejects_iff_fold_full : forall env idx idxs l,
+  (match idxs with Some li => List.length li = List.length l | None => True end) ->
+  sw_batch env idx idxs l = sw_fold env idx idxs l.
+Proof. exact sw_batch_eq_fold. Qed.
+Print Assumptions C24_switch_rejects_iff_fold_full.
+Example C24_switch_nonvacuous : sw_batch swenv_w [] None [mksw 0 0 "l"; mksw 2 1 "l"; mksw 0 2 "b"] = Some [0; 1; 2]%Z /\
+                      sw_batch swenv_w [] None [mksw 0 1 "l"] = None.
+Proof. exact sw_nonvacuous. Qed.
+
+(* --- duplicate costs with et and power_type given per element: _costs_existance_check = the sequence of single checks *)
+Theorem C24_cost_list_batch_eq_fold_full : forall is_poly items poly pwl,
+  costs_batch_rejects_l is_poly poly pwl items = cost_fold_rejects_l is_poly poly pwl items.
+Proof. exact cost_batch_eq_fold_l. Qed.
+Print Assumptions C24_cost_list_batch_eq_fold_full.
